@@ -322,7 +322,7 @@ func Run(cfg vh.Config) (*vh.Result, error) {
 					if rng.Intn(6) == 0 {
 						esc = esc[:2+rng.Intn(4)] // truncated
 					}
-					if rng.Intn(6) == 0 {
+					if rng.Intn(6) == 0 && len(esc) > 2 {
 						b := []byte(esc)
 						b[2+rng.Intn(len(b)-2)] = 'g' // invalid hex digit
 						esc = string(b)
